@@ -28,6 +28,7 @@ CONSTANTS NA, NB,            \* inline capacities of the slots
           IsStd, POCCA, POCMA, POCS, AE, SOCCC,    \* allocator traits
           Copyable, NothrowMove,                    \* element flavour
           AllocIds,          \* allocator ids handed to constructors ({0}: default only)
+          Pairs,             \* impl profiles: also explore every PAIR of throw points (second fault inside roll-back code)
           Kinds              \* range kinds to use (0 input 1 fwd 2 bidir 3 random 4 ptr 5 move_iterator 6 container iterators)
 
 VARIABLES st, hist, everBig, allocCount
@@ -452,19 +453,25 @@ Take(o, ln, extra) ==
 \* the request part of a line (what the caller passes), for L2
 Req(o, k) ==
   LET p == Predict(o) IN      \* the policy only supplies the fresh values the driver would use
-  [t |-> "op", op |-> o.op, c |-> o.c, s |-> o.s, a |-> o.a, v |-> p.v, k |-> <<k, 0>>, id |-> "mc", i |-> 0, ret |-> p.ret]
+  [t |-> "op", op |-> o.op, c |-> o.c, s |-> o.s, a |-> o.a, v |-> p.v, k |-> k, id |-> "mc", i |-> 0, ret |-> p.ret]
 
 Next ==
   IF Profile \in {"impl", "impl2"} THEN
     \* L2: every throw point of every modelled call.  The exceptional exits lead to states that are explored on.
     \E o \in Enabled :
-      LET l0 == Exec(cfg, st, Req(o, 0)) IN
+      LET l0 == Exec(cfg, st, Req(o, <<0, 0>>)) IN
       \* the shape-level policy that generates the stimuli is exactly the fault-free projection of L2
       /\ Assert(ShapeOf(Norm(StateOf(l0))) = ShapeOf(Norm(StateOf(Predict(o)))) /\ l0.out = Predict(o).out,
                 <<"policy and L2 disagree on the shape of the result", o>>)
-      /\ \E k \in 0..l0.nf :
-        LET ln == IF k = 0 THEN l0 ELSE Exec(cfg, st, Req(o, k)) IN
-        Take(o, ln, MemChecks(cfg, st, StateOf(ln), ln))
+      /\ \/ \E k \in 0..l0.nf :
+              LET ln == IF k = 0 THEN l0 ELSE Exec(cfg, st, Req(o, <<k, 0>>)) IN
+              Take(o, ln, MemChecks(cfg, st, StateOf(ln), ln))
+         \/ /\ Pairs
+            /\ \E k \in 1..l0.nf :
+                 LET l1 == Exec(cfg, st, Req(o, <<k, 0>>)) IN
+                 \E k2 \in (k + 1)..l1.nf :
+                   LET ln == Exec(cfg, st, Req(o, <<k, k2>>)) IN
+                   Take(o, ln, MemChecks(cfg, st, StateOf(ln), ln))
   ELSE
     \E o \in Enabled : Take(o, Predict(o), {})
 
